@@ -47,23 +47,6 @@ Definition lookup_spec (dflt : option V) (m : smap K V) (k : K) : eres V :=
   | None, None => EExn KeyError
   end.
 
-(* The one operation of the defaulting variant that the refinement does NOT cover (finding C13-F4):
-   setdefault of an ABSENT key.  For the plain and the ordered class every operation is covered. *)
-Definition op_ok (dflt : option V) (m : smap K V) (o : op K V) : bool :=
-  match dflt with
-  | None => true
-  | Some _ =>
-    match o with
-    | OSetdefault k _ => sm_has K V keqb lower m k
-    | _ => true
-    end
-  end.
-Fixpoint ops_ok (dflt : option V) (m : smap K V) (ops : list (op K V)) : bool :=
-  match ops with
-  | [] => true
-  | o :: r => op_ok dflt m o && ops_ok dflt (fst (spec_step K V keqb lower dflt m o)) r
-  end.
-
 (* states reachable through the public protocol *)
 Inductive reachable : cid K V -> Prop :=
 | r_init cl pairs : cl <> ClsDefault -> reachable (ci_init K V keqb lower cl pairs)
